@@ -46,7 +46,7 @@ def c04(r):
     producer(r, ["C04.", "C01."])  # "resumes producing a valid chain": chain validity is part of C04
 
 
-STRICT_SYNC_SRC = ("model", "stopqueued", "handover", "p2pidle", "crashenum", "retrieve")
+STRICT_SYNC_SRC = ("model", "stopqueued", "handover", "p2pidle", "crashenum", "retrieve", "writeerr", "adversary")
 STRICT_SYNC_SHAPES = ("ShapeA", "ShapeDup", "ShapeE", "ShapeBig")
 
 
@@ -89,6 +89,12 @@ def syncer(r, prefixes, crash):
     ok, _ = r.tlc_exhaustive("MCSyncer.tla", "Syncer_alias.cfg", expect_ok=False)
     if ok:
         raise Inconclusive("Syncer_alias.cfg no longer reproduces the C02-alias counterexample: model and findings file disagree")
+    # refused durable writes (orderly shutdown with the caches saved): the design survives them; the deviation
+    # "evict and mark seen right after the block save" survives crashes but not refused writes (must fail)
+    r.tlc_exhaustive("MCSyncer.tla", "Syncer_wfail.cfg")
+    ok, _ = r.tlc_exhaustive("MCSyncer.tla", "Syncer_evictearly.cfg", expect_ok=False)
+    if ok:
+        raise Inconclusive("Syncer_evictearly.cfg should fail: early eviction loses a block when a later write is refused")
     n = 60 if r.tier == "quick" else 300
     traces = []
     for cfg, shape in [("Syncer_sim.cfg", "ShapeBig"), ("Syncer_simE.cfg", "ShapeE"), ("Syncer_simA.cfg", "ShapeA")]:
@@ -124,8 +130,16 @@ def c02(r):
 
 def c03(r):
     r.tlc_exhaustive("MCSyncer.tla", "Syncer.cfg")
+    # tier I for admission: every offer shape on every path; each deviation must let a forged item in
+    r.tlc_exhaustive("Admission.tla", "Admission.cfg", workers=4)
+    for cfg in ("Admission_nokeybinding.cfg", "Admission_signerless.cfg", "Admission_skipseen.cfg", "Admission_halts.cfg"):
+        ok, _ = r.tlc_exhaustive("Admission.tla", cfg, workers=4, expect_ok=False)
+        if ok:
+            raise Inconclusive(cfg + " should fail (a deviation of the admission rules / the documented halt on forged P2P data)")
     t = r.drive("syncer", ["-arg", "adversary"], name="syncer-adversary")
     r.tlc_validate("SyncTrace", t, ["C03."])
+    # step-level: every adversarial offer is refused by the tier-I admission rule and changes nothing in the node
+    syncer_strict(r, [t])
     t = r.drive("syncer", name="syncer-random")
     r.tlc_validate("SyncTrace", t, ["C03."])
 
